@@ -60,7 +60,7 @@ def run_case(ctx, mr, case):
     for _ in range(case['corruptions']):
         pi = rng.randrange(len(info['partitions']))
         ip = info['partitions'][pi]
-        what = rng.choice(['data', 'data', 'hash3', 'hash2', 'hash1', 'master'])
+        what = rng.choice(['data', 'data', 'hash3', 'hash2', 'hash1', 'master', 'blank3', 'blank2', 'blank1'])
         if what == 'data':
             b = rng.randrange(ip['level_blocks'][3])
             segs = ip['lv4_segments'][b]
@@ -75,7 +75,16 @@ def run_case(ctx, mr, case):
             continue
         pos = off + rng.randrange(ln)
         bad = bytearray(img)
-        bad[pos] ^= 1 << rng.randrange(8)
+        if what.startswith('blank'):
+            # an uninitialised (all-zero) hash slot inside an otherwise authentic hash level: nothing beneath it is authenticated
+            if ln < 32:
+                continue
+            pos = off + 32 * rng.randrange(ln // 32)
+            if bytes(bad[pos:pos + 32]) == bytes(32):
+                continue
+            bad[pos:pos + 32] = bytes(32)
+        else:
+            bad[pos] ^= 1 << rng.randrange(8)
         bad = bytes(bad)
         if what == 'master':
             # the master hash lives in the partition table: the header hash no longer matches -> the container must be refused
@@ -138,6 +147,21 @@ def tree_case(ctx, mr, case):
     if rng.random() < 0.2:
         i = rng.randrange(len(master))
         master[i] = bytes(x ^ 1 for x in master[i])
+    directed = None
+    if rng.random() < 0.3:
+        # an empty hash slot in an upper level of an otherwise untouched subtree, then every block beneath it is requested
+        li = rng.choice([0, 1])
+        b = bytearray(levels[li])
+        k = 32 * rng.randrange(len(b) // 32)
+        b[k:k + 32] = bytes(32)
+        levels[li] = bytes(b)
+        directed = li
+        # ... and the levels above are re-hashed, so the block holding the empty slot is itself AUTHENTIC (a never-written region of a
+        # formatted save): what lies beneath the slot is a self-consistent but unauthenticated subtree
+        for lj in range(li - 1, -1, -1):
+            below, bsb = levels[lj + 1], bss[lj + 1]
+            levels[lj] = b''.join(hashlib.sha256(below[i:i + bsb].ljust(bsb, b'\0')).digest() for i in range(0, len(below), bsb))
+        master = [hashlib.sha256(levels[0][i:i + bss[0]].ljust(bss[0], b'\0')).digest() for i in range(0, len(levels[0]), bss[0])]
     offs, fpdata = [], b''
     for d in levels:
         offs.append(len(fpdata))
@@ -150,6 +174,10 @@ def tree_case(ctx, mr, case):
         li = rng.choice([3, 3, 3, 2, 1, 0])
         nb = (len(levels[li]) + bss[li] - 1) // bss[li]
         reqs.append((li, rng.randrange(nb)))
+    if directed is not None:
+        for li in (directed + 2, 3):
+            nb = (len(levels[li]) + bss[li] - 1) // bss[li]
+            reqs += [(li, b) for b in range(min(nb, 24))]
     impl = []
     for li, b in reqs:
         v = tree.get_block(li + 1, b, verify=True, deep_verify=True)[1]
@@ -160,6 +188,20 @@ def tree_case(ctx, mr, case):
     ctx.stat('tree_histories')
     if out != impl:
         ctx.diff('corr', 'ivfc-getblock-model', case, out, impl, 'IVFC get_block: Coq model and implementation statuses differ')
+    # the property itself, from the bytes alone: valid <=> every stored hash on the path up to the master hash matches (an empty slot
+    # matches nothing)
+    def authentic(li, b):
+        blk = levels[li][b * bss[li]:(b + 1) * bss[li]].ljust(bss[li], b'\0')
+        h = hashlib.sha256(blk).digest()
+        if li == 0:
+            return b < len(master) and master[b] == h
+        stored = levels[li - 1][b * 32:b * 32 + 32]
+        return stored == h and authentic(li - 1, (b * 32) // bss[li - 1])
+    for (li, b), st in zip(reqs, impl):
+        if (st == 'T') != authentic(li, b):
+            ctx.diff('oracle', 'tree-status', dict(case, level=li + 1, block=b), 'valid' if authentic(li, b) else 'not valid', st,
+                     f'IVFC level {li + 1} block {b}: reported {st} but its hash chain up to the master hash is ' + ('intact' if authentic(li, b) else 'not intact'))
+            break
 
 
 def gen_cases(ctx, rng):
